@@ -23,7 +23,7 @@ F1B_SIG = "C08:F1:reader-diverges-unmasked-recursion"
 F1J_SIG = "C08:F1:json-or-tl2-reader-diverges-on-unranked-schema"
 AMP_SIG = "C08:F18:total-allocation-superlinear-zero-size-elements"
 F19_SIG = "C08:F19:json-reader-allocates-tuple-by-nat-member"
-F20_SIG = "C08:F20:json-default-fill-diverges-external-mask-recursion"
+F20_SIG = "C08:F20:default-fill-diverges-infinite-default-value"
 DRIVER_FILES = ["main.go", "ops_tl1.go", "ops_total.go"]
 
 F1_SCHEMA = """
@@ -340,7 +340,7 @@ def run(ctx):
         # ---- (3) TL2 / JSON readers and transcoders: Go-only totality oracle
         sup = []   # (line, kind)
         dyn = {name: tlb.has_dyn_tuple(u.ins, tid) for tid, name, x in tops}
-        cyc_nodes = tlb.ext_cycle_nodes(u.ins)
+        cyc_nodes = tlb.default_cycle_nodes(u.ins)
         extc = {name: tlb.reaches(u.ins, tid, cyc_nodes) for tid, name, x in tops} if cyc_nodes else {}
         pick = seeds if len(seeds) <= (40 if quick else 400) else rng.sample(seeds, 40 if quick else 400)
         wl = [f"wj8 {n} {bx} {b.hex() or '-'}" for n, bx, b in pick] + [f"w28 {n} {bx} {b.hex() or '-'}" for n, bx, b in pick]
@@ -408,10 +408,10 @@ def run(ctx):
                 if not ranked_ok and ust["diverging_inputs"] and gv.startswith("crash") and ("stack" in gv or "goroutine" in gv):
                     # the default-filling / TL2 reader of an unranked schema recurses like the TL1 reader does
                     ubad.append((u.name, l, g, F1J_SIG, False))
-                elif op in ("rdjt", "trt") and gv.startswith("crash") and ("stack" in gv or "goroutine" in gv) and extc.get(l.split(" ")[1]):
-                    # default filling of an absent JSON member recursing through external-mask fields (the TL1 reader of the
-                    # same schema may well be total: the unit can be ranked)
-                    ubad.append((u.name, l + "   (JSON: " + trunc(bytes.fromhex(l.split(" ")[-1]).decode("latin1"), 200) + ")", g, F20_SIG, False))
+                elif gv.startswith("crash") and ("stack" in gv or "goroutine" in gv) and extc.get(l.split(" ")[1]):
+                    # default filling of an absent JSON member / TL2 field of a type whose default value is infinite
+                    # (the TL1 reader of the same schema may well be total: the unit can be ranked)
+                    ubad.append((u.name, l + ("   (JSON: " + trunc(bytes.fromhex(l.split(" ")[-1]).decode("latin1"), 200) + ")" if op == "rdjt" and l.split(" ")[-1] != "-" else ""), g, F20_SIG, False))
                 elif op == "rdjt" and gv.startswith("crash oom") and dyn.get(l.split(" ")[1]):
                     # tuple size taken from a # member of the JSON text, allocated before any element is seen
                     ubad.append((u.name, l + "   (JSON: " + trunc(bytes.fromhex(l.split(" ")[2]).decode("latin1"), 300) + ")", g, F19_SIG, False))
